@@ -38,10 +38,15 @@ def build(cfg):
     cls = NM()
     N = math.inf if cfg["N"] in ("inf", None) or cfg["N"] == math.inf else int(cfg["N"])
     kw = dict(cfg.get("kw", {}))
-    return cls(test=getattr(cls, cfg["test"]),
-               estim=getattr(cls, cfg["estim"]) if cfg.get("estim") else None,
-               bet=getattr(cls, cfg["bet"]) if cfg.get("bet") else None,
-               u=cfg["u"], N=N, t=cfg["t"], random_order=cfg.get("random_order", True), **kw)
+    obj = cls(test=getattr(cls, cfg["test"]),
+              estim=getattr(cls, cfg["estim"]) if cfg.get("estim") else None,
+              bet=getattr(cls, cfg["bet"]) if cfg.get("bet") else None,
+              u=cfg.get("u_built", cfg["u"]), N=N, t=cfg["t"], random_order=cfg.get("random_order", True), **kw)
+    if "u_built" in cfg:
+        # the audit workflow constructs the test with one bound and installs the real one later (asn.test.u = u):
+        # the object must behave as if it had been built with the bound it now holds
+        obj.u = cfg["u"]
+    return obj
 
 
 def cfgN(cfg):
@@ -113,8 +118,11 @@ def gen_cfg(rng, combo=None, finite=None, n_max=12, allow_not_random=True, u=Non
         kw["c_grapa_0"] = c0
         kw["c_grapa_max"] = rng.choice((c0, 1 - EPS))
         kw["c_grapa_grow"] = rng.choice((0, 0, 1, 10))
-    return {"test": test, "estim": estim, "bet": bet, "u": u, "N": N, "t": t,
-            "random_order": random_order, "kw": kw}
+    cfg = {"test": test, "estim": estim, "bet": bet, "u": u, "N": N, "t": t,
+           "random_order": random_order, "kw": kw}
+    if rng.random() < 0.25:
+        cfg["u_built"] = rng.choice((1.0, 2.0, 1.0, u * 2, max(t + 2.0 ** -6, u / 2)))
+    return cfg
 
 
 SAMPLE_STRATA = ("len1", "all_zero", "all_u", "all_t", "exceed_first", "exceed_middle", "exceed_last",
@@ -122,12 +130,30 @@ SAMPLE_STRATA = ("len1", "all_zero", "all_u", "all_t", "exceed_first", "exceed_m
                  "random", "mostly_one_value")
 
 
-def gen_sample(rng, cfg, stratum=None, n_max=12):
+NONDYADIC = (0.7, 0.6, 0.55, 0.1, 1 / 3, 1 / 1.9, 0.9, 2 / 3, 0.3)
+
+
+def gen_nondyadic(rng, u, cap):
+    """Runs of identical values that are NOT exactly representable (assorter values such as 1/(2-v), 0.7, 1/3):
+    in-domain for every property that does not need exact sums (well-formedness, ranges, non-anticipation)."""
+    n = rng.randint(1, max(1, min(cap, 40)))
+    x = []
+    while len(x) < n:
+        v = min(u, rng.choice(NONDYADIC) * rng.choice((1, 1, u)))
+        x.extend([v] * rng.randint(1, 25))
+        if rng.random() < 0.3:
+            x.append(rng.choice((0.0, u)))
+    return x[:n]
+
+
+def gen_sample(rng, cfg, stratum=None, n_max=12, nondyadic=0.0):
     """A non-empty sample in [0,u] no longer than the population; returns (stratum, list of floats)."""
     u, t = cfg["u"], cfg["t"]
     N = cfgN(cfg)
     finite = math.isfinite(N)
     cap = N if finite else n_max
+    if nondyadic and rng.random() < nondyadic:
+        return "nondyadic_runs", gen_nondyadic(rng, u, cap if finite else max(n_max, 40))
     st = stratum or rng.choice(SAMPLE_STRATA)
     grid = [0.0, u / 4, u / 2, 3 * u / 4, u, t]
     grid = [g for g in grid if 0 <= g <= u]
